@@ -345,3 +345,75 @@ def shared_argument_obligations(ctx: Any, R: str, g: FuncInfo, what: str) -> Lis
             src = one_shot_sources(cs.caller, arg)
             obs.append(ob(R, cs.caller, cs.node, f'`{p}` of {g.name} is {what}, so the argument must be re-iterable', not src, f'`{norm(src[0])[:70]}` is a one-shot iterator: the first consumer exhausts it' if src else ''))
     return obs
+
+
+# ----------------------------------------------------------------- structural non-None narrowing (fallback for the type oracle)
+def _nonnull_on(t: ast.AST, arm: bool, xt: str) -> bool:
+    """Does leaving test `t` by `arm` establish that the expression with text `xt` is not None?"""
+    if isinstance(t, ast.UnaryOp) and isinstance(t.op, ast.Not):
+        return _nonnull_on(t.operand, not arm, xt)
+    if isinstance(t, ast.BoolOp):
+        if isinstance(t.op, ast.And) and arm:
+            return any(_nonnull_on(v, True, xt) for v in t.values)
+        if isinstance(t.op, ast.Or) and not arm:
+            return any(_nonnull_on(v, False, xt) for v in t.values)
+        return False
+    if isinstance(t, ast.Compare) and len(t.ops) == 1 and isinstance(t.comparators[0], ast.Constant) and t.comparators[0].value is None and norm(t.left) == xt:
+        if isinstance(t.ops[0], ast.IsNot):
+            return arm
+        if isinstance(t.ops[0], ast.Is):
+            return not arm
+        if isinstance(t.ops[0], ast.NotEq):
+            return arm
+        if isinstance(t.ops[0], ast.Eq):
+            return not arm
+    if norm(t) == xt:
+        return arm  # truthiness
+    if isinstance(t, ast.Call) and norm(t.func) == 'isinstance' and t.args and norm(t.args[0]) == xt:
+        return arm
+    return False
+
+
+def structurally_non_none(f: FuncInfo, site: ast.AST, x: ast.AST) -> bool:
+    """The (canonical) syntax tree shows that `x` is not None where `site` is evaluated: a dominating test all of whose
+    establishing arm leads to the site, an earlier operand of the enclosing and/or, or the test of an enclosing conditional
+    expression.  Used only when the type oracle -- which reads the source text and narrows on fewer spellings -- says Optional."""
+    xt = norm(x)
+    cfg = cfg_of(f.node)
+    host = next((n for n in cfg.nodes if any(y is site for e in n.exprs() for y in ast.walk(e))), None)
+    if host is None:
+        return False
+    # re-assignment of x between the test and the site would invalidate the narrowing: require x to be a name/attribute chain
+    for t in cfg.nodes:
+        if t.kind in ('test', 'loop_test') and t is not host and t.ast is not None and cfg.dominates(t, host):
+            for arm in (True, False):
+                if _nonnull_on(t.ast, arm, xt):
+                    arm_nodes = [s for s, lab in t.succ if lab is arm]
+                    other = [s for s, lab in t.succ if lab is (not arm)]
+                    if arm_nodes and all(s is host or cfg.dominates(s, host) for s in arm_nodes):
+                        return True
+                    # early exit form: the other arm never reaches the site
+                    if other and all(not cfg.can_reach(s, host) and s is not host for s in other):
+                        return True
+
+    def within(e: ast.AST) -> bool:
+        if e is site:
+            return False
+        if isinstance(e, ast.BoolOp):
+            for i, v in enumerate(e.values):
+                if any(y is site for y in ast.walk(v)):
+                    want = isinstance(e.op, ast.And)
+                    return any(_nonnull_on(u, want, xt) for u in e.values[:i]) or within(v)
+            return False
+        if isinstance(e, ast.IfExp):
+            if any(y is site for y in ast.walk(e.body)):
+                return _nonnull_on(e.test, True, xt) or within(e.body)
+            if any(y is site for y in ast.walk(e.orelse)):
+                return _nonnull_on(e.test, False, xt) or within(e.orelse)
+            return within(e.test)
+        for c in ast.iter_child_nodes(e):
+            if any(y is site for y in ast.walk(c)):
+                return within(c)
+        return False
+
+    return any(within(e) for e in host.exprs() if any(y is site for y in ast.walk(e)))
